@@ -452,9 +452,15 @@ Section CQRS.
     existsb (fun e => match e with ESetPayload _ => true | _ => false end) es.
   Definition hook_edits (o : option hook) : list edit :=
     match o with Some hk => hk_edits hk | None => [] end.
+  (** the configuration's callbacks are given the marshaler's name of the value and the value *)
+  Definition bus_callbacks_ok (v : V) (tr : list bevent) : bool :=
+    forallb (fun e => match e with
+                      | BTopicCall n v' | BHookCall n v' _ => N.eqb n (gen_name v) && eqbV v' v
+                      | _ => true end) tr.
   Definition bus_monitor (cfg : bus_cfg) (c : cctx) (v : V) (modify : option hook)
              (tr : list bevent) (r : bres) : bool :=
     let es := hook_edits (bc_hook cfg) ++ hook_edits modify in
+    bus_callbacks_ok v tr &&
     match bus_publishes tr, r with
     | [], BErr EPublish => false
     | [], BOk => false
